@@ -24,6 +24,7 @@ type c07shape struct {
 	handler bool // a looping/sleeping body with a catch clause: under a deadline the handler must get to run
 	future  bool // needs the thread scheduler
 	depth   int  // try nesting depth
+	finRuns bool // under a generous deadline the finally body must get to run (body or handler is quick)
 }
 
 const c07Prelude = `(do
@@ -64,7 +65,10 @@ func c07Shapes(tier string) []c07shape {
 	for _, p := range atoms {
 		for _, q := range atoms {
 			for _, r := range atoms {
-				sh = append(sh, c07shape{name: "try/" + p + "/" + q + "/" + r, text: mk(p, q, r), finally: true, handler: blocking(p), depth: 1})
+				// the finally body must run (once) whenever body or handler finish well before the
+				// deadline: always when the handler is quick, since a looping body only gets 80%
+				sh = append(sh, c07shape{name: "try/" + p + "/" + q + "/" + r, text: mk(p, q, r), finally: true, handler: blocking(p), depth: 1,
+					finRuns: q == "5" || p == "5"})
 			}
 		}
 	}
@@ -234,6 +238,19 @@ func init() {
 						r.ViolationCase("evaluation blocks forever after cancellation ("+sigp+")", cas, "no thread enabled and no timer pending")
 						return
 					}
+					// the finally body runs exactly once on every path, also when the body timed out
+					if mode == "deadline" && sh.finRuns && k >= 60 {
+						n := 0
+						for j := range o.stamps {
+							if o.trace[j] == `:"fin"` {
+								n++
+							}
+						}
+						if n != 1 {
+							r.ViolationCase("finally body did not run exactly once although body/handler finished before the deadline", cas, fmt.Sprintf("finally marker seen %d times; trace %v at ticks %v", n, o.trace, o.stamps))
+							return
+						}
+					}
 					if o.ticks < k {
 						r.Outcome("returned before the instant")
 						continue // EVAL had already returned when the instant came
@@ -283,6 +300,7 @@ func init() {
 					}
 				}
 				r.Outcome(fmt.Sprintf("worst overshoot in polls: %d", worst))
+				_ = worst
 			},
 		}
 		return &vf.Check{
